@@ -7,6 +7,8 @@
 //	-mode word    : the closed-word state machine of a real module instance under sequences of causes.
 //	-mode hostrec : host <-> guest recursion shapes x causes x arrival moments on one engine (see hostrec.go).
 //	-mode probe   : the call-entry probe on both engines (see hostrec.go).
+//	-mode siblings: concurrent calls on one instance / two instances x context relation x cause (see siblings.go).
+//	-mode imported: loops in an imported module N call levels below the import boundary (see imported.go).
 package main
 
 import (
@@ -231,6 +233,7 @@ func main() {
 	list := flag.Bool("list", false, "behave: print the case list only")
 	delayMs := flag.Int("delay", 15, "behave: milliseconds between the start of the call and the cause")
 	skip := flag.String("skip", "", "behave: comma-separated shapes to leave out (already known to hang)")
+	par := flag.Int("par", 4, "siblings / imported: cases run concurrently")
 	quick := flag.Bool("quick", false, "behave: shapes known to hit the watchdog run one combination only")
 	flag.Parse()
 	out := c.NewOut()
@@ -242,6 +245,22 @@ func main() {
 		runWord(*seed, *n, out)
 	case "probe":
 		runProbe(out)
+	case "siblings":
+		if *list {
+			for i, sc := range sibCases(*quick) {
+				out.Emit(map[string]any{"idx": i, "shape": "siblings_" + sc.sh.Name, "ctx": sc.cx.Name, "topology": sc.topo, "cause": sc.cause, "spin": sc.spin})
+			}
+			return
+		}
+		runSiblings(*engine, *quick, *only, *par, time.Duration(*boundMs)*time.Millisecond, out)
+	case "imported":
+		if *list {
+			for i, ic := range importedCases(*quick) {
+				out.Emit(map[string]any{"idx": i, "shape": ic.sh.Name, "cause": ic.cause})
+			}
+			return
+		}
+		runImported(*engine, *quick, *only, *par, time.Duration(*boundMs)*time.Millisecond, out)
 	case "hostrec":
 		if *list {
 			for i, hc := range hostCases(*quick) {
